@@ -206,6 +206,9 @@ def run_schema(ctx, idx, config="tl2all", values=25, fills=25, mutations=4, labe
             exp = c["expect"]
             if ev.get("panic"):
                 continue  # reported by the harness
+            if "bok" in ev and exp[0] in ("accept", "reject") and ev["bok"] != (exp[0] == "accept") and ev.get("ok") == (exp[0] == "accept"):
+                viol("bytes-variant-accepts-invalid" if ev["bok"] else "bytes-variant-rejects-valid", c, "the []byte variant of the generated reader %s bytes that the reference codec and the string variant %s (%s); input %s" % (
+                    "accepts" if ev["bok"] else "rejects", "reject" if ev["bok"] else "accept", c["what"], c["data"].hex()[:400]))
             if exp[0] == "accept":
                 if not ev.get("ok"):
                     cl = "rejects-valid" if c["what"] == "ref-encoded" else "rejects-valid-mutant"
